@@ -13,7 +13,7 @@ from vlib.workload import case_rng, clear_typelib_caches, per_shard, quiet
 
 ID = "C12"
 LEVEL = "exploration"
-RULE = ("random histories (length 15-60) over {build routine, marshal, unmarshal, encode, decode, deep-mutate a previously returned "
+RULE = ("module re-definition histories (types are used, their module is executed again with another member type, the new classes are then used like any type) and random histories (length 15-60) over {build routine, marshal, unmarshal, encode, decode, deep-mutate a previously returned "
         "result, deep-mutate a previously passed input, clear caches, failing calls from the hostile pool} over 4-6 types per history, "
         "biased toward distinct objects that compare/hash equal (both member orders of one union, equal instants with other offsets, "
         "1/1.0/True, equal text as str/bytes, Decimal('1.0')/('1.00')); every operation of the history is re-executed ALONE in a process "
@@ -26,9 +26,9 @@ ASSUMPTIONS = [
     "string references are issued from one fixed module per history, except in the dedicated two-module scenario (D27)",
 ]
 PLAN = {"quick": dict(histories=640, maxlen=50, pressure=False), "thorough": dict(histories=12000, maxlen=60, pressure=True)}
-FLOORS = {"quick": {"suite_unmarshal_determinism_judged": 20, "suite_tests_passed": 1400, "ops_compared_with_cold": 14000, "histories": 600, "equal_but_distinct_inputs": 3000, "result_mutations": 1000, "aliasing_checks": 20000,
+FLOORS = {"quick": {"suite_unmarshal_determinism_judged": 20, "suite_tests_passed": 1400, "ops_compared_with_cold": 12000, "histories": 540, "redefinition_histories": 400, "equal_but_distinct_inputs": 3000, "result_mutations": 1000, "aliasing_checks": 20000,
                     "union_twin_histories": 150, "two_module_string_ref_histories": 50},
-          "thorough": {"suite_unmarshal_determinism_judged": 20, "suite_tests_passed": 1400, "ops_compared_with_cold": 350000, "histories": 11000, "equal_but_distinct_inputs": 60000, "result_mutations": 25000,
+          "thorough": {"suite_unmarshal_determinism_judged": 20, "suite_tests_passed": 1400, "ops_compared_with_cold": 300000, "histories": 10000, "redefinition_histories": 8000, "equal_but_distinct_inputs": 60000, "result_mutations": 25000,
                        "aliasing_checks": 300000, "union_twin_histories": 2500, "cache_pressure_ops": 100}}
 
 
@@ -227,6 +227,115 @@ def safe_copy(x):
         return x
 
 
+# ---- a module that is defined again (reload, a re-run notebook cell) --------------------------------------------------------------
+RD_LEAVES = {
+    "int": [("7", 7), (8.0, 8)], "str": [(7, "7"), (2.5, "2.5")], "float": [("1.5", 1.5), (2, 2.0)],
+    "decimal.Decimal": [("1.50", __import__("decimal").Decimal("1.50"))], "datetime.date": [("2020-01-02", __import__("datetime").date(2020, 1, 2))],
+}
+RD_WIRE = {"int": lambda v: v, "str": lambda v: v, "float": lambda v: v, "decimal.Decimal": str, "datetime.date": lambda v: v.isoformat()}
+
+
+def redefinition_source(style, leaf):
+    head = "import dataclasses, datetime, decimal, typing\n"
+    if style in ("postponed", "recursive"):
+        head = "from __future__ import annotations\n" + head
+    if style == "recursive":
+        return head + (f"@dataclasses.dataclass\nclass Holder:\n    value: {leaf}\n    item: typing.Optional[Holder] = None\n"
+                       "    items: list[Holder] = dataclasses.field(default_factory=list)\n")
+    item = f"@dataclasses.dataclass\nclass Item:\n    value: {leaf}\n"
+    if style == "init-strings":
+        return head + item + ("class Holder:\n    def __init__(self, item: 'Item', items: 'list[Item]'):\n        self.item, self.items = item, items\n")
+    return head + item + "@dataclasses.dataclass\nclass Holder:\n    item: Item\n    items: list[Item]\n"
+
+
+def redefinition_case(sh, rng):
+    """Types are used, then their module is executed AGAIN with another member type (importlib.reload, a re-run cell): the new
+    classes are new types, and calls on them are ordinary calls - whatever was done with their namesakes before."""
+    import sys
+    import types
+
+    from typelib import graph
+
+    style = rng.choice(["postponed", "evaluated", "init-strings", "recursive"])
+    t1, t2 = rng.sample(sorted(RD_LEAVES), 2)
+    name = f"vredef_{rng.randrange(16**8):08x}"
+    mod = types.ModuleType(name)
+    mod.__file__ = f"/verif/out/generated/{name}.py"
+    sys.modules[name] = mod
+
+    def load(leaf):
+        exec(compile(redefinition_source(style, leaf), mod.__file__, "exec", dont_inherit=True), mod.__dict__)
+
+    def wire_and_value(leaf, leaf_cls_name):
+        (w1, v1), (w2, v2) = rng.choice(RD_LEAVES[leaf]), rng.choice(RD_LEAVES[leaf])
+        if style == "recursive":
+            return ({"value": w1, "item": {"value": w2}, "items": [{"value": w1}]}, [("$.value", v1), ("$.item.value", v2), ("$.items[0].value", v1)],
+                    {"value": RD_WIRE[leaf](v1), "item": {"value": RD_WIRE[leaf](v2), "item": None, "items": []},
+                     "items": [{"value": RD_WIRE[leaf](v1), "item": None, "items": []}]})
+        return ({"item": {"value": w1}, "items": [{"value": w2}, {"value": w1}]}, [("$.item.value", v1), ("$.items[0].value", v2), ("$.items[1].value", v1)],
+                {"item": {"value": RD_WIRE[leaf](v1)}, "items": [{"value": RD_WIRE[leaf](v2)}, {"value": RD_WIRE[leaf](v1)}]})
+
+    def members(h):
+        if style == "recursive":
+            return [("$", h), ("$.item", h.item), ("$.items[0]", h.items[0])]
+        return [("$.item", h.item), ("$.items[0]", h.items[0]), ("$.items[1]", h.items[1])]
+
+    try:
+        load(t1)
+        w, _, _ = wire_and_value(t1, None)
+        used = rng.sample(["unmarshal", "marshal", "codec", "build"], rng.randrange(1, 4))
+        with quiet():
+            for u in used:
+                try:
+                    if u == "unmarshal":
+                        typelib.unmarshal(mod.Holder, w)
+                    elif u == "marshal":
+                        typelib.marshal(typelib.unmarshal(mod.Holder, w), t=mod.Holder)
+                    elif u == "codec":
+                        typelib.codec(mod.Holder).decode(json.dumps(w).encode())
+                    else:
+                        typelib.unmarshaller(mod.Holder), typelib.marshaller(mod.Holder)
+                except Exception:  # noqa: BLE001
+                    pass
+        load(t2)
+        H = mod.Holder
+        member_cls = H if style == "recursive" else mod.Item
+        w, wanted, wire_back = wire_and_value(t2, None)
+        deferred = any(n.cyclic and hasattr(n.type, "__forward_arg__") for n in graph.static_order(H))
+        sh.count("redefinition_histories")
+        sh.eval(("redefinition", style, t1, t2, tuple(used)))
+        rec = dict(style=style, first_member_type=t1, second_member_type=t2, used_before=str(used), member_deferred_by_reference=deferred,
+                   module_src=redefinition_source(style, t2))
+        for how, fn in (("unmarshal", lambda: typelib.unmarshal(H, w)), ("decode", lambda: typelib.codec(H).decode(json.dumps(w).encode()))):
+            try:
+                with quiet():
+                    h = fn()
+            except Exception as e:  # noqa: BLE001
+                sh.violation("history-dependent-after-redefinition", op=how, observed=f"raised {type(e).__name__}: {e}"[:300], **rec)
+                continue
+            bad = [pth for pth, mem in members(h) if type(mem) is not member_cls]
+            vals = []
+            for pth, want in wanted:
+                obj = h
+                for part in pth[2:].replace("[", ".[").split("."):
+                    obj = obj[int(part[1:-1])] if part.startswith("[") else getattr(obj, part)
+                if type(obj) is not type(want) or obj != want:
+                    vals.append((pth, repr(obj), repr(want)))
+            if bad or vals:
+                sh.violation("history-dependent-after-redefinition", op=how, stale_class_at=str(bad), wrong_values=str(vals)[:300], **rec)
+                continue
+            if how == "unmarshal":
+                try:
+                    with quiet():
+                        m = typelib.marshal(h, t=H)
+                    if canon(m, strict=True) != canon(wire_back, strict=True):
+                        sh.violation("history-dependent-after-redefinition", op="marshal", observed=short(m, 300), expected=short(wire_back, 300), **rec)
+                except Exception as e:  # noqa: BLE001
+                    sh.violation("history-dependent-after-redefinition", op="marshal", observed=f"raised {type(e).__name__}: {e}"[:300], **rec)
+    finally:
+        sys.modules.pop(name, None)
+
+
 def canaries(sh):
     sh.canary("outcomes-compare-by-representation", repr(canon(1, strict=True)) != repr(canon(1.0, strict=True)) and repr(canon(1, strict=True)) != repr(canon(True, strict=True)))
     a = [1]
@@ -239,6 +348,10 @@ def canaries(sh):
 
 def run_case(sh, i, plan):
     rng = case_rng(sh, i)
+    if i % 8 == 3:
+        for _ in range(6):
+            redefinition_case(sh, rng)
+        return
     opts = U.Opts(depth=rng.choice([1, 2, 2, 3]))
     prog = U.Program(rng)
     gen = U.Gen(prog, rng, opts)
